@@ -35,7 +35,9 @@ import (
 //	             e returns an error, p panics, n emits nothing, d emits two batches (all after the input was resolved)
 //	      xchl / xchi instead of xch: same method, the client's input schema is large_binary (cast succeeds) /
 //	             int64 (cast fails on the first turn)
-//	stream <adv> gen <count> <n> <seed> <pad> <via> <hold> <turn>;...
+//	stream <adv> gen|genb|genc|gd<k> <count> <n> <seed> <pad> <via> <hold> <turn>;...
+//	      genb / genc: same batches as gen under an output schema that differs only in field / schema metadata;
+//	      gd<k>: n rows of a schema whose dictionaries sit 1..4 levels deep (c36DeepCols[k])
 //	      producer: <count> batches of n bytes then finish; turn = t:<via> (a tick)
 //	release                                               client frees every pointer it still holds
 //	release <i>                                           client frees the i-th most recently received pointer it holds
@@ -157,6 +159,7 @@ func (s *c36XchState) Exchange(_ context.Context, in arrow.RecordBatch, out *vgi
 
 type c36GenState struct {
 	left, n, seed int64
+	method        string
 }
 
 func (s *c36GenState) Produce(_ context.Context, out *vgirpc.OutputCollector, _ *vgirpc.CallContext) error {
@@ -164,7 +167,64 @@ func (s *c36GenState) Produce(_ context.Context, out *vgirpc.OutputCollector, _ 
 		return out.Finish()
 	}
 	s.left--
-	return out.Emit(c36DataBatch(c36DataSchema, c36Bytes(s.seed+s.left, s.n)))
+	return out.Emit(c36ProducerBatch(s.method, s.seed+s.left, s.n))
+}
+
+// Producer family. gen / genb / genc produce the same one-column binary batches under output schemas
+// that differ ONLY in field metadata (genb) or schema metadata (genc) — equal names, types,
+// nullability, hence equal Schema.Fingerprint(). gd0.. produce batches (n = rows) whose only
+// dictionaries sit 1..4 levels below the top, through every container kind.
+var c36DataSchemaB = arrow.NewSchema([]arrow.Field{{Name: "data", Type: arrow.BinaryTypes.Binary, Nullable: true,
+	Metadata: arrow.NewMetadata([]string{"unit"}, []string{"bytes"})}}, nil)
+var c36DataSchemaC = func() *arrow.Schema {
+	md := arrow.NewMetadata([]string{"owner"}, []string{"c"})
+	return arrow.NewSchema([]arrow.Field{{Name: "data", Type: arrow.BinaryTypes.Binary, Nullable: true}}, &md)
+}()
+
+var c36DeepCols = []string{
+	"struct1,dict8,str",                       // depth 1 (the documented ENUM-in-STRUCT case)
+	"list,dict16,str",                         // depth 1
+	"struct1,struct1,dict8,str",               // depth 2
+	"list,struct1,dict16,str;i64",             // depth 2
+	"map,str,struct1,dict8,str",               // map value
+	"llist,map,i32,dict8,bin",                 // list of map
+	"struct2,i64,list,struct1,dict32,str",     // depth 3
+	"flist2,list,struct1,dict8,i64",           // depth 3
+	"struct1,struct1,struct1,struct1,dict8,str", // depth 4
+	"map,str,list,struct2,i32,list,dict8,str", // depth 4 through map, list, struct, list
+}
+
+func c36ProducerSchema(method string) *arrow.Schema {
+	switch {
+	case method == "genb":
+		return c36DataSchemaB
+	case method == "genc":
+		return c36DataSchemaC
+	case strings.HasPrefix(method, "gd"):
+		k, _ := strconv.Atoi(method[2:])
+		s, err := c35Schema(c36DeepCols[k])
+		if err != nil {
+			panic(err)
+		}
+		return s
+	}
+	return c36DataSchema
+}
+
+func c36IsProducer(method string) bool { return strings.HasPrefix(method, "gen") || strings.HasPrefix(method, "gd") }
+
+// c36ProducerBatch: the batch producer `method` emits for (seed, n); also how the harness computes
+// the expected result.
+func c36ProducerBatch(method string, seed, n int64) arrow.RecordBatch {
+	if strings.HasPrefix(method, "gd") {
+		k, _ := strconv.Atoi(method[2:])
+		b, err := c35Batch(c36DeepCols[k], int(n), uint64(seed), arrow.Metadata{}, false)
+		if err != nil {
+			panic(err)
+		}
+		return b
+	}
+	return c36DataBatch(c36ProducerSchema(method), c36Bytes(seed, n))
 }
 
 func c36Server() *vgirpc.Server {
@@ -187,9 +247,16 @@ func c36Server() *vgirpc.Server {
 		}
 		return &vgirpc.StreamResult{OutputSchema: c36DataSchema, State: &c36XchState{mult: p.Mult}}, nil
 	})
-	vgirpc.Producer(s, "gen", c36DataSchema, func(_ context.Context, _ *vgirpc.CallContext, p c36GenParams) (*vgirpc.StreamResult, error) {
-		return &vgirpc.StreamResult{OutputSchema: c36DataSchema, State: &c36GenState{left: p.Count, n: p.N, seed: p.Seed}}, nil
-	})
+	producers := []string{"gen", "genb", "genc"}
+	for k := range c36DeepCols {
+		producers = append(producers, fmt.Sprintf("gd%d", k))
+	}
+	for _, name := range producers {
+		name, schema := name, c36ProducerSchema(name)
+		vgirpc.Producer(s, name, schema, func(_ context.Context, _ *vgirpc.CallContext, p c36GenParams) (*vgirpc.StreamResult, error) {
+			return &vgirpc.StreamResult{OutputSchema: schema, State: &c36GenState{left: p.Count, n: p.N, seed: p.Seed, method: name}}, nil
+		})
+	}
 	return s
 }
 
@@ -723,7 +790,7 @@ func c36ParamsBatch(srv *vgirpc.Server, method string, a, b, seed int64, pad int
 			case "initfail":
 				v = b
 			}
-			if method == "gen" && f.Name == "n" {
+			if c36IsProducer(method) && f.Name == "n" {
 				v = b
 			}
 			bb.Append(v)
@@ -877,9 +944,10 @@ func c36Exec(c *Case) {
 			var turns []c36Turn
 			var mturns, vias []string
 			inSchema := c36DataSchema
-			switch wireKind {
-			case "gen":
+			if c36IsProducer(method) {
 				inSchema = c36TickSchema
+			}
+			switch wireKind {
 			case "xchl":
 				inSchema = arrow.NewSchema([]arrow.Field{{Name: "data", Type: arrow.BinaryTypes.LargeBinary, Nullable: true}}, nil)
 			case "xchi":
@@ -892,12 +960,12 @@ func c36Exec(c *Case) {
 					var in arrow.RecordBatch
 					var outc string
 					var tvia string
-					if method == "gen" {
+					if c36IsProducer(method) {
 						tvia = p[1]
 						in = c36Empty(c36TickSchema)
 						if left > 0 {
 							left--
-							ob := c36DataBatch(c36DataSchema, c36Bytes(seed+left, b))
+							ob := c36ProducerBatch(method, seed+left, b)
 							outc = "r=" + c36Describe(ob).String()
 							ob.Release()
 						} else {
@@ -1209,9 +1277,37 @@ func c36Gen(g *Gen) {
 				if len(turns) > 0 {
 					ts = strings.Join(turns, ";")
 				}
-				lines = append(lines, fmt.Sprintf("stream %s gen %d %d %d %d %s %d %s", adv, count, Pick(r, sizes), seed, pad, via, hold, ts))
+				gm := Pick(r, []string{"gen", "gen", "genb", "genc", "gd"})
+				gn := Pick(r, sizes)
+				if gm == "gd" {
+					gm, gn = fmt.Sprintf("gd%d", r.Intn(len(c36DeepCols))), Pick(r, []int{0, 1, 8, 40, 60})
+				}
+				lines = append(lines, fmt.Sprintf("stream %s %s %d %d %d %d %s %d %s", adv, gm, count, gn, seed, pad, via, hold, ts))
 			}
 		}
+		g.Case(lines...)
+	}
+	// several producers in ONE session whose output schemas are pairwise almost equal (metadata
+	// only), and producers of deeply nested dictionary columns — large batches, through the segment
+	for i, nm := 0, g.N(60, 1200); i < nm; i++ {
+		lines := []string{fmt.Sprintf("seg 0 %d", Pick(r, []int{30000, 60000, 120000}))}
+		deep := r.Bool()
+		for k := r.Range(2, 5); k > 0; k-- {
+			count := r.Range(1, 2)
+			ts := make([]string, count+1)
+			for t := range ts {
+				ts[t] = "t:i"
+			}
+			m, nn := Pick(r, []string{"gen", "genb", "genc"}), Pick(r, []int{700, 1500, 3000})
+			if deep {
+				m, nn = fmt.Sprintf("gd%d", r.Intn(len(c36DeepCols))), Pick(r, []int{40, 60, 100})
+			}
+			lines = append(lines, fmt.Sprintf("stream %s %s %d %d %d 0 %s %d %s", Pick(r, []string{"g0", "g0", "-"}), m, count, nn, r.Intn(1000), Pick(r, []string{"i", "s0"}), r.Intn(2), strings.Join(ts, ";")))
+			if k == 1 || len(lines) == 2 {
+				lines[len(lines)-1] = strings.Replace(lines[len(lines)-1], "stream - ", "stream g0 ", 1)
+			}
+		}
+		lines = append(lines, "release")
 		g.Case(lines...)
 	}
 	// turns that FAIL after their input arrived as a pointer (handler error, panic, no emit, double
